@@ -7,4 +7,4 @@ cd "$DIR/lean"
 lake build
 # every theorem module (the checks build their own module again; this warms the cache)
 MODS=$(ls Xandikos/Theorems/*.lean | sed 's#/#.#g; s#\.lean$##')
-lake build xdriver xjdriver $MODS
+lake build xdriver xjdriver xgdriver $MODS
